@@ -209,7 +209,7 @@ Otherwise substract all but the first argument from the first one."
 
 (defun -range (n init)
   ""
-  (if (= n -1)
+  (if (< n 0)
       init
       (-range (substract n 1) (cons n init))))
 
